@@ -11,5 +11,10 @@ for id in "$@"; do
   echo "=== $id with $(basename $(dirname $patch))/$(basename $patch)"
   VERIF_REPO=$wt /verif/check $id ${TIER:+--tier $TIER} > /tmp/trywt.$$.out 2>&1; echo "rc=$?"
   grep -aE "VIOLATION|KNOWN|INCONCL|what:|BUILD" /tmp/trywt.$$.out | cut -c1-${WIDTH:-300}
+  if [ -n "$KEEP" ]; then
+    # keep the smallest case found for this check as a regression file
+    f=$(grep -a "^VIOLATION property=$id replay=/verif/replay/found/" /tmp/trywt.$$.out | sed 's/.*replay=//' | xargs -r ls -S 2>/dev/null | tail -1)
+    if [ -n "$f" ]; then cp "$f" /verif/replay/regress/$id/seeded-$KEEP.json; echo "kept $f as regress/$id/seeded-$KEEP.json"; fi
+  fi
 done
 rm -f /tmp/trywt.$$.out
